@@ -1,4 +1,5 @@
 import Bpmn.Props.C04
+import Bpmn.Props.EngineSteps
 import Bpmn.Props.C04Current
 open Bpmn.Props.C04
 #print axioms C04_holds
@@ -10,3 +11,8 @@ open Bpmn.Props.C04
 #print axioms xg_single_na_na_report
 #print axioms xg_single_na_report_na
 #print axioms Bpmn.Props.C04Current.xpath_fact_known
+#print axioms Bpmn.Props.EngineSteps.xor_step_take
+#print axioms Bpmn.Props.EngineSteps.xor_step_error
+#print axioms Bpmn.Props.EngineSteps.xor_step_at_most_one
+#print axioms Bpmn.Props.EngineSteps.xor_routes_first_true
+#print axioms Bpmn.Props.EngineSteps.xor_routes_default
